@@ -198,6 +198,25 @@ let cmd_c14rate toks =
   let (mode, r) = pop toks in let (rs, _) = pop_list pop_nat r in
   print_sexpr (if mode = "det" then export_det rs else export_stoch rs)
 
+(* ---- C12: c12kv <n> chars (0 = space, 1 = '=')  ->  print_kv (parse_kv s) ---- *)
+let cmd_c12kv toks =
+  let (chars, _) = pop_list pop_nat toks in
+  String.concat " " (List.map (fun n -> string_of_int (int_of_nat n)) (print_kv (parse_kv chars)))
+
+(* ---- C13: c13rules n kinds(a|r|g)... -> emitted assignments "A i" and rate reactions "R i" (i = position in the document);
+        c13init <amount|none> <conc|none> -> imported initial value ---- *)
+let cmd_c13rules toks =
+  let (kinds, _) = pop_list pop toks in
+  let rules = List.mapi (fun i k -> { sr_kind = (match k with "a" -> RkAssignment | "r" -> RkRate | _ -> RkAlgebraic);
+                                      sr_var = nat_of_int i; sr_formula = nat_of_int i; sr_var_known = true }) kinds in
+  let (a, b) = import_rules rules in
+  let show = function EmitAssign (v, _) -> "A " ^ string_of_int (int_of_nat v) | EmitRateReaction (v, _) -> "R " ^ string_of_int (int_of_nat v) in
+  String.concat " " (List.map show a) ^ " | " ^ String.concat " " (List.map show b)
+let cmd_c13init toks =
+  match toks with
+  | [a; c] -> let o s = if s = "none" then None else Some (fl_of_string s) in hx (initial_value fl (o a) (o c))
+  | _ -> raise (Parse "c13init")
+
 let () =
   try
     while true do
@@ -217,6 +236,9 @@ let () =
           | "c15align" -> cmd_c15align toks
           | "teval" -> cmd_teval toks
           | "c14rate" -> cmd_c14rate toks
+          | "c12kv" -> cmd_c12kv toks
+          | "c13rules" -> cmd_c13rules toks
+          | "c13init" -> cmd_c13init toks
           | "translate" -> cmd_translate toks
           | "iface" -> cmd_iface toks
           | _ -> "ERR unknown command " ^ cmd)
